@@ -16,6 +16,12 @@
       the token list rewritten by the neighbour rule `OScan.readO` — a plain walk over the tokens that needs
       neither hints nor the scratch builder: a significant `o` with a number word as nearest significant
       neighbour (either side) becomes `zero`, any other significant `o` becomes the ordinary word.
+
+  A hinted token is never skipped (it ends the open number even if its text is a lone `-` or white space), an
+  un-hinted one with such a text is.  So the stand-in for a hinted `o` has to look like the HINTED token
+  (`SameLook cfg (markTok t) (fw t)`: in particular it is not skipped), and the text-level theorems ask that the text
+  of an `o` token is not a lone `-` / white space (`Unskipped`; automatic for `simpleCC`: `C18_text_simple`).
+  Counter-examples without these conditions: end of the file.
 -/
 import T2N.Lemmas.OScan
 import T2N.Lemmas.WsText
@@ -46,7 +52,18 @@ theorem sameLook_wordy (cfg : ScanCfg) {a b : Tok} (ha : Wordy cfg.cc a.text) (h
     SameLook cfg a b := by
   unfold SameLook Scanner.isSkipped
   rw [ha.1, ha.2.1, ha.2.2, hb.1, hb.2.1, hb.2.2]
-  exact ⟨rfl, rfl⟩
+  exact ⟨by simp, rfl⟩
+
+/-- a text that the scanner does not skip, hinted or not: not the lone `-`, not all white space -/
+def Unskipped (cc : CharClasses) (x : Word) : Prop := (x == ['-']) = false ∧ x.all cc.isWhitespace = false
+
+instance (cc : CharClasses) (x : Word) : Decidable (Unskipped cc x) := by unfold Unskipped; infer_instance
+
+theorem Wordy.unskipped {cc : CharClasses} {x : Word} (h : Wordy cc x) : Unskipped cc x := ⟨h.1, h.2.1⟩
+
+theorem isSkipped_unskipped (cfg : ScanCfg) {a : Tok} (h : Unskipped cfg.cc a.text) :
+    Scanner.isSkipped cfg a = false := by
+  unfold Scanner.isSkipped; rw [h.1, h.2]; simp
 
 theorem en_rejects_comma : En.lang.Rejects [','] :=
   C10.C10_en_rejects _ (by decide) (by decide) (by decide) (by decide)
@@ -103,7 +120,7 @@ theorem C18_o_like_zero_all (cfg : ScanCfg) (hc : cfg.lang = En.lang) (hsep : Se
 /-- the two stand-ins used below qualify: the word alone … -/
 theorem asZero_ok (cfg : ScanCfg) (t : Tok) :
     (asZero t).lower = w!"zero" ∧ (asZero t).nan = t.nan ∧ SameLook cfg t (asZero t) :=
-  ⟨rfl, rfl, SameLook.of_text cfg rfl⟩
+  ⟨rfl, rfl, SameLook.of_text cfg rfl rfl⟩
 
 /-- … and the full word token `zero`, when the replaced text is a word and `zero` is one -/
 theorem zeroTok_ok (cfg : ScanCfg) (t : Tok) (ht : Wordy cfg.cc t.text) (hz : Wordy cfg.cc w!"zero") :
@@ -123,7 +140,7 @@ theorem C18_refused_word_step (cfg : ScanCfg) (hc : cfg.lang = En.lang) (s : Sca
       s.push cfg pos { b with nan := true } = Scanner.pushNan cfg s { b with nan := true } :=
   ⟨push_refused_eq_pushNan cfg s pos b hsk hnan
       ⟨by rw [hc]; exact en_atomRej _ hw, Or.inr (by rw [hc]; exact en_atomRej _ en_rejects_comma)⟩,
-    push_nan_eq cfg s pos _ hsk rfl⟩
+    push_nan_eq cfg s pos _ (isSkipped_of_nan cfg rfl) rfl⟩
 
 /-- **C18 (a hinted `o` is an ordinary word), one position**: replacing the hinted `o` token at position `i` by an
 UN-hinted token `b` of the same look whose word is ordinary changes no occurrence — for every token list,
@@ -159,14 +176,22 @@ theorem C18_o_like_word_all (cfg : ScanCfg) (hc : cfg.lang = En.lang) (toks : Li
     | inr hr => exact Or.inr hr
   · exact Or.inl rfl
 
-theorem asWord_ok (cfg : ScanCfg) (w : Word) (hw : Ordinary w) (t : Tok) :
-    (asWord w t).nan = false ∧ Ordinary (asWord w t).lower ∧ SameLook cfg t (asWord w t) :=
-  ⟨rfl, hw, SameLook.of_text cfg rfl⟩
+/-- the un-hinted stand-in that keeps the text looks like the HINTED token when that text is not one the scanner
+skips (a hinted token is never skipped, an un-hinted lone `-` or white space is: see the counter-example below) -/
+theorem asWord_ok (cfg : ScanCfg) (w : Word) (hw : Ordinary w) (t : Tok) (ht : Unskipped cfg.cc t.text) :
+    (asWord w t).nan = false ∧ Ordinary (asWord w t).lower ∧ SameLook cfg (markTok t) (asWord w t) :=
+  ⟨rfl, hw, SameLook.of_text_hinted cfg rfl rfl (isSkipped_unskipped cfg ht)⟩
 
 theorem wordTok_ok (cfg : ScanCfg) (w : Word) (hw : Ordinary w) (t : Tok) (ht : Wordy cfg.cc t.text)
     (hwt : Wordy cfg.cc w) :
     (wordTok w t).nan = false ∧ Ordinary (wordTok w t).lower ∧ SameLook cfg t (wordTok w t) :=
   ⟨rfl, hw, sameLook_wordy cfg ht hwt⟩
+
+/-- … the same against the hinted token -/
+theorem wordTok_ok_hinted (cfg : ScanCfg) (w : Word) (hw : Ordinary w) (t : Tok) (ht : Wordy cfg.cc t.text)
+    (hwt : Wordy cfg.cc w) :
+    (wordTok w t).nan = false ∧ Ordinary (wordTok w t).lower ∧ SameLook cfg (markTok t) (wordTok w t) :=
+  wordTok_ok cfg w hw (markTok t) ht hwt
 
 /-- `xyzzy` and `clock` are ordinary words (the hypothesis is satisfiable) -/
 theorem ordinary_xyzzy : Ordinary w!"xyzzy" :=
@@ -182,11 +207,14 @@ theorem C18_annotateEn_is_walk (cc : CharClasses) (toks : List Tok) :
 
 /-- **C18 (scanner)**: searching the annotated tokens = searching the tokens in which every significant `o` has been
 REPLACED according to the neighbour rule — by `fz t` (a `zero`) when a nearest significant neighbour is a number
-word, by `fw t` (an un-hinted ordinary word) otherwise — with no annotation at all. Any token list. -/
+word, by `fw t` (an un-hinted ordinary word) otherwise — with no annotation at all. Any token list.
+`fw t` has to look like the HINTED `o` (`markTok t`): a hinted token is never skipped, so `fw t` must not be a lone
+`-` or white space (counter-example below). -/
 theorem C18_scan (cfg : ScanCfg) (hc : cfg.lang = En.lang) (hsep : SepRespects cfg) (toks : List Tok)
     (fz fw : Tok → Tok)
     (hz : ∀ t ∈ toks, t.lower = ['o'] → (fz t).lower = w!"zero" ∧ (fz t).nan = t.nan ∧ SameLook cfg t (fz t))
-    (hw : ∀ t ∈ toks, t.lower = ['o'] → (fw t).nan = false ∧ Ordinary (fw t).lower ∧ SameLook cfg t (fw t)) :
+    (hw : ∀ t ∈ toks, t.lower = ['o'] →
+      (fw t).nan = false ∧ Ordinary (fw t).lower ∧ SameLook cfg (markTok t) (fw t)) :
     findNumbers cfg (annotateEn cfg.cc En.apply toks) = findNumbers cfg (readO cfg.cc fz fw none toks) := by
   rw [annotateEn_eq_readO]
   apply findNumbers_osubst cfg hsep
@@ -204,12 +232,14 @@ theorem enCfg_sep (cc : CharClasses) (thr : Nat → Bool) : SepRespects (enCfg c
 
 /-- **C18 (text, search)**: for every text, character classes and threshold, the occurrences found after the
 annotation pass are those found, with NO annotation pass, in the tokens where each significant `o` is replaced by the
-word `zero` or by the ordinary word `w` according to the neighbour rule (texts of the tokens kept) -/
-theorem C18_text_scan (cc : CharClasses) (thr : Nat → Bool) (w : Word) (hw : Ordinary w) (s : Word) :
+word `zero` or by the ordinary word `w` according to the neighbour rule (texts of the tokens kept) — provided the
+text of an `o` token is not one the scanner skips (automatic for sensible character classes: `C18_text_scan_simple`) -/
+theorem C18_text_scan (cc : CharClasses) (thr : Nat → Bool) (w : Word) (hw : Ordinary w) (s : Word)
+    (ho : ∀ t ∈ tokenize cc s, t.lower = ['o'] → Unskipped cc t.text) :
     findNumbers (enCfg cc thr) (Language.english.annotate cc (tokenize cc s)) =
       findNumbers (enCfg cc thr) (readO cc asZero (asWord w) none (tokenize cc s)) :=
   C18_scan (enCfg cc thr) rfl (enCfg_sep cc thr) _ asZero (asWord w)
-    (fun t _ _ => asZero_ok _ t) (fun t _ _ => asWord_ok _ w hw t)
+    (fun t _ _ => asZero_ok _ t) (fun t ht h => asWord_ok _ w hw t (ho t ht h))
 
 /-- … and the same with full word tokens `zero` / `w` (text replaced too), when the replaced tokens are words -/
 theorem C18_text_scan_words (cc : CharClasses) (thr : Nat → Bool) (w : Word) (hw : Ordinary w) (s : Word)
@@ -218,7 +248,7 @@ theorem C18_text_scan_words (cc : CharClasses) (thr : Nat → Bool) (w : Word) (
     findNumbers (enCfg cc thr) (Language.english.annotate cc (tokenize cc s)) =
       findNumbers (enCfg cc thr) (readO cc zeroTok (wordTok w) none (tokenize cc s)) :=
   C18_scan (enCfg cc thr) rfl (enCfg_sep cc thr) _ zeroTok (wordTok w)
-    (fun t ht h => zeroTok_ok _ t (ho t ht h) hz) (fun t ht h => wordTok_ok _ w hw t (ho t ht h) hwt)
+    (fun t ht h => zeroTok_ok _ t (ho t ht h) hz) (fun t ht h => wordTok_ok_hinted _ w hw t (ho t ht h) hwt)
 
 /-- tokens with the same texts -/
 def SameText (a b : Tok) : Prop := a.text = b.text
@@ -233,14 +263,16 @@ theorem flatMap_sameText : ∀ {as bs : List Tok}, ListRel SameText as bs →
 
 /-- **C18 (text)**: `replace_numbers_in_text` for English = tokenize, rewrite every significant lone `o` by the
 neighbour rule (word `zero` / ordinary word `w`, no hints), search and splice — with no annotation pass.
-Every text, all character classes, every threshold. -/
-theorem C18_text (cc : CharClasses) (thr : Nat → Bool) (w : Word) (hw : Ordinary w) (s : Word) :
+Every text, every threshold, all character classes under which the text of an `o` token is not one the scanner
+skips (`C18_text_simple`: no condition for `simpleCC`). -/
+theorem C18_text (cc : CharClasses) (thr : Nat → Bool) (w : Word) (hw : Ordinary w) (s : Word)
+    (ho : ∀ t ∈ tokenize cc s, t.lower = ['o'] → Unskipped cc t.text) :
     replaceText cc .english thr s =
       replaceTextWith (enCfg cc thr) (readO cc asZero (asWord w) none) s := by
   show replaceTextWith (enCfg cc thr) (Language.english.annotate cc) s = _
   unfold replaceTextWith
   dsimp only
-  rw [C18_text_scan cc thr w hw s]
+  rw [C18_text_scan cc thr w hw s ho]
   cases findNumbers (enCfg cc thr) (readO cc asZero (asWord w) none (tokenize cc s)) with
   | error f => rfl
   | ok occs =>
@@ -286,11 +318,6 @@ ordinary word — although number words are two tokens away on both sides -/
 example : replaceText simpleCC .english zeroThr w!"twenty and o, five" = .ok w!"20 and o, 5" := by rfl
 example : replaceText simpleCC .english zeroThr w!"twenty and xyzzy, five" = .ok w!"20 and xyzzy, 5" := by
   rfl
-/-- the theorem on these texts -/
-example (thr : Nat → Bool) : replaceText simpleCC .english thr w!"twenty and o, five" =
-    replaceTextWith (enCfg simpleCC thr) (readO simpleCC asZero (asWord w!"xyzzy") none) w!"twenty and o, five" :=
-  C18_text simpleCC thr _ ordinary_xyzzy _
-
 
 /-- with the explicit character classes `simpleCC` (lowercasing is the identity) every `o` token of a text is a
 word, so the full word tokens `zero` / `w` can be used for every text -/
@@ -300,21 +327,40 @@ theorem lowerStr_simple (x : Word) : simpleCC.lowerStr x = x := by
   | nil => rfl
   | cons c cs ih => rw [List.flatMap_cons, ih]; rfl
 
+/-- under `simpleCC` the text of an `o` token of a text is `o` -/
+theorem simple_o_text (s : Word) (t : Tok) (ht : t ∈ tokenize simpleCC s) (ho : t.lower = ['o']) :
+    t.text = ['o'] := by
+  unfold tokenize at ht
+  obtain ⟨x, _, hx⟩ := List.mem_map.mp ht
+  subst hx
+  have h1 : (basicToken simpleCC x).lower = simpleCC.lowerStr x := rfl
+  rw [h1, lowerStr_simple] at ho
+  exact ho
+
 theorem C18_text_scan_words_simple (thr : Nat → Bool) (w : Word) (hw : Ordinary w) (hwt : Wordy simpleCC w)
     (s : Word) :
     findNumbers (enCfg simpleCC thr) (Language.english.annotate simpleCC (tokenize simpleCC s)) =
       findNumbers (enCfg simpleCC thr) (readO simpleCC zeroTok (wordTok w) none (tokenize simpleCC s)) := by
   apply C18_text_scan_words simpleCC thr w hw s (by decide) hwt
   intro t ht ho
-  unfold tokenize at ht
-  obtain ⟨x, _, hx⟩ := List.mem_map.mp ht
-  subst hx
-  have : x = ['o'] := by
-    have h1 : (basicToken simpleCC x).lower = simpleCC.lowerStr x := rfl
-    rw [h1, lowerStr_simple] at ho; exact ho
-  subst this
-  show Wordy simpleCC ['o']
+  rw [simple_o_text s t ht ho]
   decide
+
+/-- `C18_text_scan` / `C18_text` with the explicit character classes `simpleCC`: no condition on the text -/
+theorem C18_text_scan_simple (thr : Nat → Bool) (w : Word) (hw : Ordinary w) (s : Word) :
+    findNumbers (enCfg simpleCC thr) (Language.english.annotate simpleCC (tokenize simpleCC s)) =
+      findNumbers (enCfg simpleCC thr) (readO simpleCC asZero (asWord w) none (tokenize simpleCC s)) :=
+  C18_text_scan simpleCC thr w hw s (fun t ht ho => by rw [simple_o_text s t ht ho]; decide)
+
+theorem C18_text_simple (thr : Nat → Bool) (w : Word) (hw : Ordinary w) (s : Word) :
+    replaceText simpleCC .english thr s =
+      replaceTextWith (enCfg simpleCC thr) (readO simpleCC asZero (asWord w) none) s :=
+  C18_text simpleCC thr w hw s (fun t ht ho => by rw [simple_o_text s t ht ho]; decide)
+
+/-- the theorem on these texts -/
+example (thr : Nat → Bool) : replaceText simpleCC .english thr w!"twenty and o, five" =
+    replaceTextWith (enCfg simpleCC thr) (readO simpleCC asZero (asWord w!"xyzzy") none) w!"twenty and o, five" :=
+  C18_text_simple thr _ ordinary_xyzzy _
 
 example (thr : Nat → Bool) :
     findNumbers (enCfg simpleCC thr) (Language.english.annotate simpleCC (tokenize simpleCC w!"it is o five o clock")) =
@@ -359,5 +405,37 @@ example : findNumbers (enCfg simpleCC (fun n => n < 10))
     [{ text := w!"one", lower := w!"one" }, { text := w!"uh", lower := w!"uh" },
      { text := w!"two", lower := w!"two" }] =
     .ok [⟨0, 1, w!"1", .dec [1] [], false⟩, ⟨2, 3, w!"2", .dec [2] [], false⟩] := by rfl
+
+/-! ### why the stand-in must look like the HINTED token
+
+A token hinted "not part of a number" is never skipped: it ends the open number even when its text is a lone `-` or
+white space.  An un-hinted token with such a text is skipped.  So the stand-in for a hinted `o` must not have such a
+text — `SameLook cfg (markTok t) (fw t)` in `C18_scan`, `Unskipped` in `C18_text_scan` / `C18_text`. -/
+
+/-- token lists: an `o` whose text is a lone `-`, between two `-` tokens; hinted it splits `twenty … five`, the
+un-hinted stand-in with the same text does not (and `SameLook cfg t (asWord w t)` holds for the un-hinted `t`) -/
+def hyphenO : List Tok := [{ text := w!"twenty", lower := w!"twenty" }, { text := w!"-", lower := w!"-" },
+  { text := w!"-", lower := w!"o" }, { text := w!"-", lower := w!"-" }, { text := w!"five", lower := w!"five" }]
+
+example : findNumbers (enCfg simpleCC zeroThr) (annotateEn simpleCC En.apply hyphenO) =
+    .ok [⟨0, 1, w!"20", .dec [2, 0] [], false⟩, ⟨4, 5, w!"5", .dec [5] [], false⟩] := by rfl
+example : findNumbers (enCfg simpleCC zeroThr) (readO simpleCC asZero (asWord w!"xyzzy") none hyphenO) =
+    .ok [⟨0, 5, w!"25", .dec [2, 5] [], false⟩] := by rfl
+example (t : Tok) (ht : t = { text := w!"-", lower := w!"o" }) :
+    SameLook (enCfg simpleCC zeroThr) t (asWord w!"xyzzy" t) ∧ ¬ Unskipped simpleCC t.text := by
+  subst ht; exact ⟨SameLook.of_text _ rfl rfl, by decide⟩
+
+/-- texts: character classes under which the tab is white space and a letter and lowercases to `o`; the tab token of
+`one uh<TAB>uh two` is then a significant `o` with no number word next to it: hinted it breaks the sequence `one … two`
+(threshold 10: both held back), the un-hinted stand-in with the same text is skipped (both reported) -/
+def tabOCC : CharClasses where
+  isWhitespace := simpleCC.isWhitespace
+  isAlphabetic := fun c => c == '\t' || simpleCC.isAlphabetic c
+  isAlphanumeric := simpleCC.isAlphanumeric
+  lower := fun c => if c == '\t' then ['o'] else [c]
+
+example : replaceText tabOCC .english (fun n => n < 10) w!"one uh\tuh two" = .ok w!"one uh\tuh two" := by rfl
+example : replaceTextWith (enCfg tabOCC (fun n => n < 10)) (readO tabOCC asZero (asWord w!"xyzzy") none)
+    w!"one uh\tuh two" = .ok w!"1 uh\tuh 2" := by rfl
 
 end T2N.C18
